@@ -5,6 +5,7 @@ import (
 	"os"
 	"path/filepath"
 	"reflect"
+	"strings"
 	"testing"
 
 	"verifharness/internal/hx"
@@ -135,6 +136,64 @@ func TestSelf(t *testing.T) {
 	o = runExtract(ec)
 	if len(o.Violations) > 0 || o.Desc.(map[string]any)["died"] != true || !o.Nontrivial {
 		selfFail(t, "killed in-place extract: %+v %v", o.Desc, o.Violations)
+	}
+	// ---- extract under strace: reading of a log with interleaved threads
+	dest := "/w/out/blob"
+	lg := "7 openat(AT_FDCWD, \"/w/out/.blob.123\", O_RDWR|O_CREAT|O_EXCL|O_CLOEXEC, 0644) = 6\n" +
+		"8 unlinkat(AT_FDCWD, \"/w/out/.tmp55\", 0 <unfinished ...>\n" +
+		"7 renameat(AT_FDCWD, \"/w/out/.blob.123\", AT_FDCWD, \"/w/out/blob\" <unfinished ...>\n" +
+		"8 <... unlinkat resumed>)               = 0\n" +
+		"7 <... renameat resumed>)               = 0\n" +
+		"8 unlinkat(AT_FDCWD, \"/w/out/.blob.123\", 0) = ?\n" +
+		"8 +++ killed by SIGKILL +++\n"
+	xt := analyseExtract([]byte(lg), dest, true, map[string]bool{"unlinkat": true}, 2)
+	if !xt.Renamed || xt.Hit == nil || xt.Hit.Name != "unlinkat" || xt.Hit.Ord != 2 || xt.Totals["unlinkat"] != 2 || xt.Hit.short("/w/out") != "unlinkat(<out>/.blob.N)" {
+		selfFail(t, "analyseExtract misreads a log: renamed=%v hit=%+v totals=%v", xt.Renamed, xt.Hit, xt.Totals)
+	}
+	xt = analyseExtract([]byte(strings.Replace(lg, "\"/w/out/blob\" <unfinished", "\"/w/out/blob2\" <unfinished", 1)), dest, false, nil, 0)
+	if xt.Renamed || xt.Hit != nil {
+		selfFail(t, "analyseExtract sees a rename onto the destination where there is none")
+	}
+	// ---- extract under strace: where the kill lands, an injected failure, the planted defect.
+	// What desync does is not the self-test's business: these only run when the undisturbed traced
+	// extract is clean and replaces its destination with one rename, and only judge clean outcomes.
+	fc := ExtractCase{Chunks: ec.Chunks, Layout: ec.Layout, N: 2, Prior: "garbage", PriorSeed: 3, PriorLen: 500, Death: "strace-kill", Syscall: xFamilies["rename"], When: 1}
+	has := func(o hx.Outcome, cl string) bool {
+		for _, c := range o.Classes {
+			if c == cl {
+				return true
+			}
+		}
+		return false
+	}
+	_, totals := finalPhasePoints(fc)
+	if totals["rename"]+totals["renameat"]+totals["renameat2"] != 1 {
+		fmt.Printf("note: traced extract makes %v; landing self-tests skipped\n", totals)
+		return
+	}
+	o = runExtract(fc)
+	if len(o.Violations) == 0 && (!has(o, "extract:killed-at-rename") || !has(o, "extract:final-phase-kill") || !o.Nontrivial || o.Observed.(map[string]any)["renamed_onto_dest"] != false) {
+		selfFail(t, "kill at the entry of the final rename: %+v classes %v", o.Desc, o.Classes)
+	}
+	fc.Death = "strace-err"
+	o = runExtract(fc)
+	if len(o.Violations) == 0 && (!has(o, "extract:rename-failed") || o.Desc.(map[string]any)["died"] != true) {
+		selfFail(t, "injected failure of the final rename: %+v classes %v", o.Desc, o.Classes)
+	}
+	fc.Death, fc.Syscall, fc.When = "strace-kill", xFamilies["unlink"], 500 // beyond what any thread does: runs to its end
+	o = runExtract(fc)
+	if len(o.Violations) == 0 && (!has(o, "extract:completed") || o.Observed.(map[string]any)["renamed_onto_dest"] != true) {
+		selfFail(t, "traced extract with an unreachable crash point: %+v classes %v", o.Desc, o.Classes)
+	}
+	for _, m := range []struct {
+		death, prior, want string
+	}{{"strace-kill", "garbage", "C08:extract:dest-touched:final-phase"}, {"strace-err", "partial", "C08:extract:dest-touched:final-phase"}, {"strace-kill", "absent", ""}} {
+		pc := fc
+		pc.Death, pc.Prior, pc.Syscall, pc.When, pc.Bad = m.death, m.prior, xFamilies["rename"], 1, "unlink-dest"
+		o = runExtract(pc)
+		if got := sigs(o); m.want != "" && !got[m.want] && !got["C08:extract:dest-touched"] {
+			selfFail(t, "planted loss of the destination (%s, prior %s): want signature %q, got %v", m.death, m.prior, m.want, o.Violations)
+		}
 	}
 }
 
